@@ -30,23 +30,23 @@ CHECKS = {
  "C04": dict(engine="cosched", level="exploration", section="4 C04", technique="schedule exploration: generated graphs x generated schedules on a cooperative token scheduler (rapid), plus delay-injection runs and -race in thorough",
    text="The real runner.Run executes generated acyclic graphs with recording Targets while a cooperative scheduler that owns every scheduling point of "
         "runner.go takes each decision from a generated choice vector (deterministic, shrinkable, exact deadlock detection); a third of the cases run free "
-        "with generated delays; free-running fan-in graphs align 2-8 dependents at a barrier right before they request the same fresh targets. Oracle: once-only load/evaluate, completion before continuation, actual outcomes handed over, Run's result.",
+        "with generated delays; free-running fan-in graphs align 2-8 dependents at a barrier right before they request the same fresh targets. Oracle: once-only load/evaluate, completion before continuation, actual outcomes handed over, Run's result. A project-level check builds generated dawn projects whose dependency labels use every spelling (incl. target://pkg:name) through the real Load/Run and counts body starts and completion events per label.",
    note="Interleavings inside windows without a scheduling point are only reached by the delay-injection mode and -race (thorough); graphs <= 14 nodes."),
- "C05": dict(engine="cosched", level="exploration", section="4 C05", technique="schedule exploration (rapid) with exact deadlock/livelock detection, bounded-exhaustive schedules for a catalogue of tiny graphs, limits 1-4 and 16 via CPU affinity",
+ "C05": dict(engine="cosched", level="exploration", section="4 C05", technique="schedule exploration (rapid) with exact deadlock/livelock detection, bounded-exhaustive schedules and PCT priority schedules for a catalogue of tiny graphs, limits 1-4 and 16 via CPU affinity",
    text="Generated digraphs (self-loops, overlapping cycles, cycles off the root) run on the real runner under generated fair schedules at parallelism limits "
         "1,2,3,4,16; termination is decided by the scheduler (confirmed all-parked dump = deadlock, >400k scheduling points = livelock), and the cycle "
-        "error must appear exactly when the reachable graph is cyclic. A catalogue of 7 tiny graphs is run under every schedule with <=1 (quick) / <=2 "
-        "(thorough) preemptions.",
+        "error must appear exactly when the reachable graph is cyclic. A catalogue of 8 tiny graphs is run under every schedule with <=1 (quick) / <=2 "
+        "(thorough) preemptions (plain or parking the preempted goroutine) and under generated PCT priority schedules.",
    note="Termination is decided on generated graphs and fair schedules only; graphs <= 10 nodes and <= 4096 paths (the runner's cycle walk is not memoised)."),
  "C06": dict(engine="cosched", level="exploration", section="4 C06", technique="schedule exploration (rapid): generated load graphs x generated schedules on the cooperative scheduler over the real dawn.Load, exact deadlock detection",
    text="Generated projects (packages, shared helper modules, chains, diamonds, self-loads, 2..n-cycles) are loaded by the real dawn.Load while the cooperative "
         "scheduler owns the scheduling points of package and module loading; a third of the cases run free with generated delays. Oracle: Load returns, each "
-        "module executed once, acyclic => expected targets and flags, cyclic => cyclic-dependency error. A catalogue of 8 load graphs runs under every run-until-block schedule with <=1 preemption (<=2 for the long rings; all in thorough), and an aligned free-running stress releases the mutual loads from a barrier.",
+        "module executed once, acyclic => expected targets and flags, cyclic => cyclic-dependency error. A catalogue of 8 load graphs runs under every run-until-block schedule with <=1 preemption (<=2 for the long rings; all in thorough), an aligned free-running stress releases the mutual loads from a barrier, and reload histories hold every Reload of one long-lived Project to the oracle of a fresh load.",
    note="Starlark execution between load statements is atomic under the scheduler; <= 4 packages and <= 5 helper modules."),
  "C07": dict(engine="starval", level="exploration", section="4 C07", technique="property-based testing (rapid): round-trip / isomorphism oracle over generated values",
    text="Generated-value search (rapid, shrinking) against a structural-isomorphism oracle that also compares types and aliasing, plus a pair oracle "
         "(one-leaf mutations must not decode equal) and encode determinism/fixpoint. Boundary classes (int widths, string lengths, batch sizes at every "
-        "position, sharing, cycles, host objects) are forced by the generator and counted in the evidence.",
+        "position, sharing, cycles, host objects) are forced by the generator and counted in the evidence; a pickler that allocates its arguments per call under forced garbage collections checks that sharing is by value identity, not by address.",
    note="Trusts the harness' Iso relation and starlark.Equal; sizes <= 3002 elements, strings <= 65537 bytes; cycles through a host object's argument tuple are outside the generator (C08 covers recursion)."),
  "C08": dict(engine="projsim", level="exploration", section="4 C08", technique="grammar-based property testing (rapid) in child processes: terminates-without-crash oracle, determinism across processes, metamorphic change detection",
    text="BUILD files generated from a grammar of value and function kinds (recursion, mutual recursion, closures, defaults, nested defs, big and cyclic data, "
@@ -88,7 +88,7 @@ CHECKS = {
    note="A removed label is never re-created (the property's own quantifier); the removal clause is checked for full-load collections only."),
  "C15": dict(engine="starval", level="exploration", section="4 C15", technique="structure-aware mutation fuzzing (rapid) + coverage-guided native fuzzing (go test -fuzz) with a value-or-error oracle",
    text="Mutated valid encodings (values and real function environments), opcode soup and every truncation of the environment seeds are decoded with the "
-        "generic, the dawn environment and no unpickler; thorough adds a native coverage-guided campaign. Oracle: value xor error, well-formed value, no panic, no hang.",
+        "generic, the dawn environment and no unpickler; every program of <=3 opcode atoms is enumerated; thorough adds a native coverage-guided campaign. Oracle: value xor error, well-formed value, no panic, no hang. Corrupted records of generated projects are loaded and built in child processes (fresh load, or watch session: corrupt under a loaded Project, Reload twice, Run): error reported or stale target rebuilt, never a crash or 'up to date'.",
    note="Inputs <= 4 KiB; declared 4-byte lengths larger than the input are excluded by an independent framing walker, as the statement allows; native fuzzing is not seed-reproducible (crashers become replay files)."),
  "C16": dict(engine="starval", level="exploration", section="4 C16", technique="property-based testing (rapid): reconstruction oracle over generated value pairs",
    text="Generated pairs (new derived from old by edits, or independent) are diffed; the oracle rebuilds both sequences from the edit list by position, checks "
